@@ -229,7 +229,7 @@ def main():
         ],
         'checks': checks,
         'not_applicable': na,
-        'notes': 'fix: commits in /repo: 24bcbc6 e8708a2 c6a3c15 2986370 a5de4a0 8f0ba72 12e49aa 909991a 5177afa 95a0033 (see known_findings.txt)',
+        'notes': 'fix: commits in /repo: 24bcbc6 e8708a2 c6a3c15 2986370 a5de4a0 8f0ba72 12e49aa 909991a 5177afa 95a0033 922f373 f6c47ad d8a8c35 (see known_findings.txt)',
     }
     with open(V + '/MANIFEST.json', 'w') as f:
         json.dump(m, f, indent=1)
